@@ -1,3 +1,4 @@
+import BycycleModel.Routing
 import Proofs.Effects
 import Proofs.Objs
 import BycycleModel.EffectPrograms
@@ -162,5 +163,9 @@ example : expandShorthand [("monotonicity", 4/5), ("amp_fraction_threshold", 0),
     [("monotonicity_threshold", 4/5), ("amp_fraction_threshold", 0), ("min_n_cycles", 3)] := by decide +kernel
 example : reduceThresholds [("monotonicity_threshold", 4/5), ("min_n_cycles", 3)] (some (1/5)) =
     [("monotonicity_threshold", 3/5), ("min_n_cycles", 3)] := by decide +kernel
+
+/-- the wiring of the object read off the source: `fit` hands EVERY stored setting to the homonymous parameter of `compute_features` (`thresholds` to
+`threshold_kwargs`) - the `Api.cf o.st x` of the object machine - and `plot` hands the stored table, signal, rate and thresholds to the summary plot. -/
+theorem C14_routing : ∀ r ∈ Routing.object, Routing.holds Slots.routes r = true := by decide +kernel
 
 end Bycycle
